@@ -22,8 +22,11 @@ RULE = ("batches of grammar programs (C01's space incl. tags drawn as in C07, "
         "loopy calls, several outputs, shared subexpressions) and of "
         "distributed programs (C08's space) are handed, as JSON text, to "
         "fresh child interpreters started with PYTHONHASHSEED = 0, 1, 2, ... "
-        "and two allocation histories (plain; 'churn': other graphs built, "
-        "code generated for them and half of them discarded first).  Each "
+        "and three histories (plain; 'churn': other graphs built, code "
+        "generated for them and half of them discarded first; 'reverse': "
+        "the batch processed in the opposite order).  The batch also holds "
+        "programs around hand-written loopy kernels of one name and "
+        "different shapes, and C16's symbolic-shape programs.  Each "
         "child emits, per program: an order-preserving description of the "
         "loopy kernel (arguments, temporaries, domains, substitution rules, "
         "instructions with dependencies, in kernel order), the C source, the "
@@ -47,12 +50,14 @@ ROOT = os.path.dirname(os.path.dirname(os.path.dirname(os.path.abspath(__file__)
 
 def plan(tier: str) -> dict:
     if tier == "thorough":
-        return {"shards": 16, "examples": 60, "max_ops": 14, "dist": 60,
+        return {"shards": 16, "examples": 60, "max_ops": 14, "dist": 150,
+                "sym": 25, "loopy": 12,
                 "children": [(0, "plain"), (1, "plain"), (2, "churn"),
-                             (3, "plain"), (4, "churn"), (5, "plain"),
-                             (6, "plain"), (7, "churn")]}
-    return {"shards": 16, "examples": 10, "max_ops": 10, "dist": 10,
-            "children": [(0, "plain"), (1, "churn"), (2, "plain")]}
+                             (3, "reverse"), (4, "churn"), (5, "plain"),
+                             (6, "reverse"), (7, "churn")]}
+    return {"shards": 16, "examples": 10, "max_ops": 10, "dist": 30,
+            "sym": 6, "loopy": 4,
+            "children": [(0, "plain"), (1, "churn"), (2, "reverse")]}
 
 
 def run_children(cases, children) -> list[list[dict]]:
@@ -131,6 +136,27 @@ def run_shard(shard: int, nshards: int, seed: int, tier: str) -> ShardResult:
 
     hyp_run(st.tuples(progen.programs(cfg), st.data()), body, seed,
             pl["examples"])
+    # programs around hand-written loopy kernels (same kernel name, other
+    # shapes: the callee must not be renamed depending on what the process
+    # compiled before)
+    lcfg = progen.GenCfg(max_ops=5, min_ops=1, groups=frozenset(
+        {"loopy", "arith", "transpose", "reshape"}))
+
+    def lbody(pv):
+        spec, vals = pv
+        cases.append({"spec": gc(spec)})
+        if any(n["op"] == "call_loopy" for n in spec["nodes"]):
+            res.count("programs_with_loopy_call")
+
+    hyp_run(progen.programs(lcfg), lbody, seed + 3, pl["loopy"])
+    # programs with symbolic shapes (domains over several size parameters)
+    from pvf.props import c16
+
+    def sbody(desc):
+        cases.append({"spec": {"sym": desc}})
+        res.count("symbolic_programs")
+
+    hyp_run(c16.sym_programs(), sbody, seed + 4, pl["sym"])
     cases.extend(dist_cases(seed, pl, res))
     per_child = run_children(cases, pl["children"])
     for i, case in enumerate(cases):
@@ -139,7 +165,9 @@ def run_shard(shard: int, nshards: int, seed: int, tier: str) -> ShardResult:
         for k, v in rs[0]["artefacts"].items():
             res.count("artefact:" + k + (":exception" if v.startswith(
                 "exception:") else ""))
-        if "spec" in case:
+        if "spec" in case and "sym" in case["spec"]:
+            res.nontrivial.add(spec_hash(case["spec"]))
+        elif "spec" in case:
             nops = len([n for n in case["spec"]["nodes"] if n["op"] not in (
                 "placeholder", "data", "sizeparam")])
             if nops >= 3 or len(case["spec"]["outputs"]) >= 2:
